@@ -487,3 +487,25 @@ Proof. vm_compute. reflexivity. Qed.
 Lemma params_refuted_w :
   http_process fs_w v_prefix (cfg_w false) [Data req_empty_param] = ([], Crash UninitRead).
 Proof. vm_compute. reflexivity. Qed.
+
+(* ------------------------------------------------------------------ accepted sockets never block *)
+Theorem accepted_nonblocking : forall l4 l6 nb s, accept_step l4 l6 nb = Some s -> nonblocking s = true.
+Proof. intros l4 l6 nb s. unfold accept_step. destruct (l4 || l6); try discriminate. destruct nb; try discriminate. intro H; inversion H; reflexivity. Qed.
+
+(* C20_no_stall: whichever listener (IPv4 or IPv6) a connection was accepted from, a call of
+   httpProcessInput on it returns after at most BUF_SIZE reads, whatever the peer sends or withholds *)
+Theorem no_stall_accepted : forall l4 l6 nb s fs v cfg segs,
+  accept_step l4 l6 nb = Some s ->
+  exists r n, http_call s fs v cfg segs = Returned r n /\ Z.of_nat n <= C20_BUF_SIZE.
+Proof.
+  intros l4 l6 nb s fs v cfg segs Ha. apply accepted_nonblocking in Ha.
+  pose proof (no_stall fs v cfg segs) as Hn. unfold http_call. rewrite Ha.
+  destruct (http_process_n fs v cfg segs) as [[e st] n]. simpl in Hn.
+  destruct st; eexists; eexists; split; eauto.
+Qed.
+
+(* a socket left blocking (what an accept branch without rfbSetNonBlocking would produce) stalls on a
+   request that is not complete yet *)
+Lemma blocking_socket_stalls :
+  http_call {| from_v6 := true; nonblocking := false |} fs_w v_tree (cfg_w false) [Data [71; 69; 84; 32; 47]] = Blocked.
+Proof. vm_compute. reflexivity. Qed.
